@@ -33,6 +33,9 @@ T = {
  "C02": (True, "E2", "exhaustive enumeration of integer values and of f32 bit patterns (complete where feasible, documented lattices for f64 / 48 / 64 bit) on the real conversions against a bit-level round-to-nearest-even / exact-truncation reference",
          "Every value of the <=24-bit (thorough: <=32-bit) integer formats to f32/f64; every f32 in [-1,1) (thorough) to all 12 integer formats; every f32 to f64; all rounding decision points of f64->f32 around every enumerated f32; truncation boundaries and the inverse law for every integer value; lattices for f64 sources and 48/64-bit integers.",
          "f64 and 48/64-bit domains are covered on lattices aimed at rounding/truncation boundaries. Inputs outside [-1,1) are not fed to float->int. Trusted: rustc/LLVM, the integer RNE reference (cross-checked against hardware casts in unit tests).", "DESIGN.md §4 C02"),
+ "C03": (True, "E2", "exhaustive enumeration of sample values x offset/gain alphabets (complete for 8/16-bit formats) and of frame widths 1..32 x 14 formats x every Frame method on the real code, against the reference arithmetic and per-channel sample application",
+         "Identity laws over every value of the <=24-bit formats (thorough: <=32-bit), general add/mul laws over every 8/16-bit value x all offsets/gains of the alphabets (lattice above), bare-sample-as-frame laws; 448 frame instantiations x 9 contents x every Frame method with closure call order observed; release and overflow-checked builds.",
+         "Values above 16/24 bits are covered on lattices; offsets/gains come from finite alphabets. Trusted: rustc/LLVM, hardware f32/f64 multiply, the reference conversions (C01/C02 references).", "DESIGN.md §4 C03"),
 }
 ALL = ["C%02d" % i for i in range(1, 21)]
 
